@@ -286,6 +286,30 @@ class FinalJudge:
                                f"default mode reports table_properties[{k!r}] = {show(v)!r}; mode {m} top level has {show(t.get(k))!r}"[:400])
 
 
+        # ... and the other way round: a clause the owning mode reports at top level is not lost in the default mode - it is kept
+        # under table_properties (the property: a clause is captured under its key in the owning mode AND in the default mode)
+        tp = base.get("table_properties") or {}
+        for k, v in t.items():
+            if k in base or k in ("dataset",) or not isinstance(k, str):
+                continue
+            provided = not _empty(v)        # (a mode's own default - None, False, an empty structure - is not a clause of the statement)
+            if provided and (k not in tp or not deep_eq_safe(tp[k], v)):
+                return bad(f"clause key `{k}` is reported by mode {m} but lost in the default mode",
+                           f"mode {m} has {k} = {show(v)!r}; default mode table_properties has {show(tp.get(k))!r} (keys {sorted(map(str, tp))})"[:400])
+
+
+def _empty(v):
+    if isinstance(v, W):
+        return False
+    if v is None or v is False or (isinstance(v, str) and v == ""):
+        return True
+    if isinstance(v, dict):
+        return all(_empty(x) for x in v.values())
+    if isinstance(v, (list, tuple, set)):
+        return all(_empty(x) for x in v)
+    return False
+
+
 def _common_equal(k, a, b, mode):
     if k == "columns" and isinstance(a, list) and isinstance(b, list) and len(a) == len(b):
         for ca, cb in zip(a, b):
